@@ -42,6 +42,8 @@ impl<D: DiffHook> Replace<D> {
     fn flush_del_ins(&mut self) -> Result<(), D::Error> {
         if let Some((del_old_index, del_old_len, del_new_index)) = self.del.take() {
             if let Some((_, ins_new_index, ins_new_len)) = self.ins.take() {
+                #[cfg(similar_verif)]
+                crate::verif::hit(27);
                 self.d
                     .replace(del_old_index, del_old_len, ins_new_index, ins_new_len)?;
             } else {
